@@ -119,6 +119,7 @@ def _expand_chunk(entries):
         if _CHECK_ONLY:
             continue
         ops = list(system.ops(w0))
+        system.current_history = hist             # lets a transition check re-build the pre-state
         if ops and _SEED:
             k = _SEED % len(ops)
             ops = ops[k:] + ops[:k]
@@ -134,6 +135,7 @@ def _expand_chunk(entries):
                 continue
             ntrans += 1
             outcomes[(op[0], repr(obs)[:60])] += 1
+            d = _digest(system, w)        # before the check: a check may re-build worlds (library globals)
             bad = system.check(w0, op, w, obs)
             if bad:
                 for fp, detail in bad:
@@ -148,7 +150,6 @@ def _expand_chunk(entries):
                 continue
             if nontrivial is not None and nontrivial(w0, op, w, obs):
                 nnontriv += 1
-            d = _digest(system, w)
             if d != dg and d not in succ:
                 succ[d] = hist + (op,)
     if rebuild:
